@@ -364,6 +364,18 @@ func (f *frame) pureCall(in *ssa.Call) {
 			r := x.havocPure("norand", "Int")
 			setT(r, r)
 			return
+		case "lastval":
+			// result of the most recent call through the function-valued field named (opt purecalls)
+			if c, ok := in.Call.Args[0].(*ssa.Const); ok && c.Value != nil {
+				cn := "Ghost_last_" + sanitize(constant.StringVal(c.Value))
+				if srt, ok := x.comps[cn]; ok {
+					setT(f.mem[0].heapOf(cn, srt), f.mem[1].heapOf(cn, srt))
+					return
+				}
+			}
+			h := x.havocPure("nolast", "Int")
+			setT(h, h)
+			return
 		case "ncalls":
 			// number of calls of the named callee completed so far on this path (ghost counter)
 			if c, ok := in.Call.Args[0].(*ssa.Const); ok && c.Value != nil {
